@@ -42,6 +42,8 @@ pub struct RunOpts {
     pub timeout_s: Option<u64>,
     /// file to connect to stdin
     pub stdin_file: Option<PathBuf>,
+    /// run as this (unprivileged) uid/gid
+    pub uid: Option<u32>,
 }
 
 static WATCH: Mutex<Option<(i32, Instant)>> = Mutex::new(None);
@@ -91,6 +93,7 @@ pub fn run_bin(bin: &Path, cwd: &Path, args: &[String], opts: &RunOpts, io_dir: 
     }
     cmd.stdout(out_f).stderr(err_f);
     let fsize = opts.fsize_limit;
+    let uid = opts.uid;
     unsafe {
         cmd.pre_exec(move || {
             libc::umask(0o022);
@@ -98,6 +101,12 @@ pub fn run_bin(bin: &Path, cwd: &Path, args: &[String], opts: &RunOpts, io_dir: 
                 libc::signal(libc::SIGXFSZ, libc::SIG_IGN);
                 let r = libc::rlimit { rlim_cur: l, rlim_max: l };
                 libc::setrlimit(libc::RLIMIT_FSIZE, &r);
+            }
+            if let Some(u) = uid {
+                libc::setgroups(0, std::ptr::null());
+                if libc::setgid(u) != 0 || libc::setuid(u) != 0 {
+                    return Err(std::io::Error::last_os_error());
+                }
             }
             Ok(())
         });
@@ -420,4 +429,27 @@ pub fn diff_maps(exp: &BTreeMap<String, (Vec<u8>, u32)>, got: &BTreeMap<String, 
 
 pub fn base_args(threads: usize) -> Vec<String> {
     vec!["push".into(), "--color".into(), "never".into(), "--threads".into(), threads.to_string()]
+}
+
+/// chown everything under (and including) `root` to uid:gid
+pub fn chown_tree(root: &Path, uid: u32) {
+    fn ch(p: &Path, uid: u32) {
+        let c = std::ffi::CString::new(p.as_os_str().as_bytes()).unwrap();
+        unsafe {
+            libc::lchown(c.as_ptr(), uid, uid);
+        }
+    }
+    fn walk(d: &Path, uid: u32) {
+        if let Ok(rd) = fs::read_dir(d) {
+            for e in rd.filter_map(|e| e.ok()) {
+                let p = e.path();
+                if fs::symlink_metadata(&p).map(|m| m.is_dir()).unwrap_or(false) {
+                    walk(&p, uid);
+                }
+                ch(&p, uid);
+            }
+        }
+        ch(d, uid);
+    }
+    walk(root, uid);
 }
